@@ -165,6 +165,11 @@ func VerifC09_CanaryServiceFromSelectorlessService() {
 // each step only after the previous one is complete, and "done" only when all three are.
 func VerifC04_FinalisingTrafficRouting() {
 	w := mSetup(false)
+	// clean-up is independent of what the *current* step configures: routes of earlier steps must be withdrawn even
+	// when the current step carries neither weight nor matches
+	if verifrt.Bool("ctx.currentStepWithoutTraffic") {
+		w.ctx.Strategy = v1beta1.TrafficRoutingStrategy{}
+	}
 	// in-memory grace expectations left by earlier reconciles (lost on restart: both cases)
 	for _, ka := range [][2]string{{"svc-uid", "restoreService"}, {"ro-uid", "restoreGateway"}, {"ns/svc-canary", "removeCanaryService"}} {
 		if verifrt.Bool("grace.pending." + ka[1]) {
